@@ -97,6 +97,18 @@ static void c3_sweep_decode(int pairs, long idx, sweep_t *s)
 	}
 }
 
+static const char *c3_vtag(const fn_t *fn)
+{
+    static char b[4][24];
+    static int k;
+    if (fn->fl & FL_VNPV) {
+	char *o = b[k++ & 3];
+	snprintf(o, sizeof(b[0]), "@%s", vn_name[fn->v]);
+	return o;
+    }
+    return fn->v ? "'" : "";
+}
+
 static int c3_errno_in(int e, int mask)
 {
     if ((mask & EM_INVAL) && e == EINVAL) return 1;
@@ -128,6 +140,33 @@ static int c3_cat_errno_ok(int cat, int e)
     case VNAERR_INTERNAL: return e == ENOSYS;
     default:              return 1;
     }
+}
+
+/*
+ * behavioural probe: one more standard with an incomplete S matrix (a single
+ * reflect) must still be accepted by object v, as it was when the fixture
+ * was built
+ */
+static int c3_probe_add(fx_t *F, int v)
+{
+    vnacal_new_t *vnp = *fx_vnpp(F, v);
+    int rows = 2, cols = 2;
+
+    if (vnp == NULL)
+	return 0;
+    if (v == VN_R) rows = 1;
+    if (v == VN_U16) cols = 1;
+    if (v == VN_A5 || v == VN_A3 || v == VN_A1) {
+	int nf = fx_vnp_nf(v);
+	double complex *vec = fx_block(F, (size_t)nf * sizeof(double complex));
+	double complex **pp = fx_block(F, sizeof(double complex *));
+	for (int i = 0; i < nf; ++i)
+	    vec[i] = 0.2 + 0.1 * I;
+	pp[0] = vec;
+	return vnacal_new_add_single_reflect_m(vnp, pp, 1, 1, F->p_scalar, 1);
+    }
+    return vnacal_new_add_single_reflect_m(vnp, F->mp, rows, cols,
+	    VNACAL_OPEN, 1);
 }
 
 /*
@@ -163,7 +202,7 @@ static int c3_call_and_judge(int mode, fx_t *F, const sweep_t *s,
     }
     /* expectation */
     int must_fail = 0, any = 0, mask = 0, decider = -1;
-    if (fn->fl & FL_L0FAIL) {
+    if ((fn->fl & FL_L0FAIL) && ndev == 0) {
 	must_fail = 1;
 	mask = fn->em;
     } else if (ndev == 0) {
@@ -183,7 +222,7 @@ static int c3_call_and_judge(int mode, fx_t *F, const sweep_t *s,
 	}
 	if (nfail > 0) {
 	    must_fail = 1;
-	} else if (nctx > 0 && ndev == 1) {
+	} else if (nctx > 0 && ndev == 1 && !(fn->fl & FL_L0FAIL)) {
 	    must_fail = 1;
 	    mask = dev[0].em ? dev[0].em : fn->em;
 	    decider = 0;
@@ -195,13 +234,13 @@ static int c3_call_and_judge(int mode, fx_t *F, const sweep_t *s,
     }
     if (ndev == 0)
 	snprintf(what, sizeof(what), "%s%s(valid arguments)%s", fn->name,
-		fn->v ? "'" : "", state);
+		c3_vtag(fn), state);
     else if (ndev == 1)
 	snprintf(what, sizeof(what), "%s%s(%s=%s)%s", fn->name,
-		fn->v ? "'" : "", devarg[0], dev[0].lab, state);
+		c3_vtag(fn), devarg[0], dev[0].lab, state);
     else
 	snprintf(what, sizeof(what), "%s%s(%s=%s, %s=%s)%s", fn->name,
-		fn->v ? "'" : "", devarg[0], dev[0].lab, devarg[1],
+		c3_vtag(fn), devarg[0], dev[0].lab, devarg[1],
 		dev[1].lab, state);
     if (vf_verbose)
 	vf_note("call: %s  expect: %s", what, must_fail ? "failure" :
@@ -225,17 +264,17 @@ static int c3_call_and_judge(int mode, fx_t *F, const sweep_t *s,
 #define DEVSIG(kind) do { \
 	if (decider >= 0) \
 	    snprintf(sig, sizeof(sig), "%s:%s%s:%s=%s", kind, fn->name, \
-		    fn->v ? "'" : "", devarg[decider], dev[decider].lab); \
+		    c3_vtag(fn), devarg[decider], dev[decider].lab); \
 	else if (ndev == 1) \
 	    snprintf(sig, sizeof(sig), "%s:%s%s:%s=%s", kind, fn->name, \
-		    fn->v ? "'" : "", devarg[0], dev[0].lab); \
+		    c3_vtag(fn), devarg[0], dev[0].lab); \
 	else if (ndev == 2) \
 	    snprintf(sig, sizeof(sig), "%s:%s%s:%s=%s,%s=%s", kind, fn->name, \
-		    fn->v ? "'" : "", devarg[0], dev[0].lab, devarg[1], \
+		    c3_vtag(fn), devarg[0], dev[0].lab, devarg[1], \
 		    dev[1].lab); \
 	else \
 	    snprintf(sig, sizeof(sig), "%s:%s%s", kind, fn->name, \
-		    fn->v ? "'" : ""); \
+		    c3_vtag(fn)); \
     } while (0)
 
     if (fn->rk == RK_INT && R.iv < -1) {
@@ -315,6 +354,16 @@ static int c3_call_and_judge(int mode, fx_t *F, const sweep_t *s,
 		    vf_fail(r, sig, "%s was refused (errno %d) but changed "
 			    "observable state: %s", what, e, diff);
 		}
+		if ((fn->fl & FL_VNPV) && fn->rk == RK_INT) {
+		    vf_errlog_reset(&F->elog);
+		    if (c3_probe_add(F, fn->v) != 0) {
+			DEVSIG("behaviour-changed");
+			vf_fail(r, sig, "after the refused %s the object no "
+				"longer accepts a single-reflect standard it "
+				"accepted before: %s", what,
+				F->elog.count ? F->elog.msg[0] : "");
+		    }
+		}
 	    }
 	}
     }
@@ -336,7 +385,7 @@ static void c3_desc(const sweep_t *s, fx_t *F, vf_result *r, const char *pre)
     size_t off = 0;
 
     off += (size_t)snprintf(b + off, sizeof(b) - off, "%s%s%s(", pre,
-	    fn->name, fn->v ? "'" : "");
+	    fn->name, c3_vtag(fn));
     for (int k = 0; k < fn->na && off < sizeof(b) - 40; ++k) {
 	int nd = fn->a[k].dom(F, fn->v, dvs);
 	int pick = k == s->a1 ? s->v1 : k == s->a2 ? s->v2 : 0;
